@@ -158,6 +158,31 @@ def keepGet (mac : Str → Str → List UInt8) (token remote : Str) : KeepGet :=
   | .error .obsolete => .refused 400
   | .error _ => .refused 500
 
+/-- `remoteProxy.Get` for a locator with several `+R<remote>-…` hints, in locator order: every hint
+builds a client for its remote (an error ends the request), the request goes out through the client
+of the last hint. `last` is the token of the client built so far. -/
+def keepGetHintsAux (mac : Str → Str → List UInt8) (token : Str) : List Str → Option Str → KeepGet
+  | [], none => .refused 400                       -- no remote hint: "bad request"
+  | [], some t => .requests (sOAuth2sp ++ t)
+  | r :: rs, _ =>
+    match keepRemoteToken mac token r with
+    | .ok t => keepGetHintsAux mac token rs (some t)
+    | .error .obsolete => .refused 400
+    | .error _ => .refused 500
+
+def keepGetHints (mac : Str → Str → List UInt8) (token : Str) (remotes : List Str) : KeepGet :=
+  keepGetHintsAux mac token remotes none
+
+/-- A sequence of `remoteClient` calls on one keepstore process, (remote, token) per step: each
+answer depends on its own step only — `remoteClient` keeps no memory of earlier tokens or remotes
+(the per-remote client cache holds no token). -/
+def keepSeq (mac : Str → Str → List UInt8) (steps : List (Str × Str)) : List (Except SaltErr Str) :=
+  steps.map (fun st => keepRemoteToken mac st.2 st.1)
+
+/-- the same for a sequence of `Get` requests, (hints, token) per step -/
+def keepGetSeq (mac : Str → Str → List UInt8) (steps : List (List Str × Str)) : List KeepGet :=
+  steps.map (fun st => keepGetHints mac st.2 st.1)
+
 /-! ## Legacy proxy path: Handler.saltAuthToken (lib/controller/federation.go) -/
 
 /-- one segment of a query string / form body as `url.ParseQuery` sees it -/
